@@ -5,7 +5,10 @@ MC      MC_Dup, Dup.tla on itself: pairs over 144 abstract records [t,c,o,ttl,n,
         case of owner/embedded names, separates everything else, lower-cases names only), triples over 36 (transitive),
         all lists of <= 5 of the six Dedup symbols x 7 owner shapes (escaped backslash / dot / \\DDD / quote next to the letter
         whose case changes, several backslashes in a row) (one per group, original order, first of its group, minimum TTL,
-        idempotent, never merges non-duplicates).
+        idempotent, never merges non-duplicates); Mode "ext": records with a LIST in the RDATA whose elements are dropped
+        (at the end = a proper prefix, at the front, in the middle, all) or repeated -- lists of different length are never
+        duplicates, in either order -- and records differing in ONE BIT of the type / class (8 base classes x 16 bits: no bit
+        of the class is a flag that equality ignores) / TTL (any bit: still duplicates).
 GEN     Gen_Dup exports every ordered pair (verdict of Dup.tla), every triple of the reduced universe, every list of <= N
         symbols with the surviving indexes and TTLs  ->  harness `dup replay`: the abstract records are instantiated for
         every record type (+ gateway variants of IPSECKEY/AMTRELAY) and, by reflection, for EVERY field of it: n ranges
@@ -16,11 +19,20 @@ GEN     Gen_Dup exports every ordered pair (verdict of Dup.tla), every triple of
         names x<c>y / x<c XOR 0x20>y as owner and in every embedded name field (duplicates only for letters).  Where reversing
         a record's lists does not change its packed octets (SVCB/HTTPS parameters) the pairs/triples are also run with the
         first, the second and both arguments in reversed order (another spelling of the same record: same verdicts, incl. Copy).
+        Mode "lens": every ordered pair of the list variants of MC_Dup (element numbers of a base list of 1..3 elements) with
+        the verdict of Dup.tla, applied by reflection to EVERY slice of every type (texts, type bitmaps, prefixes, SVCB
+        parameters and their lists, rendezvous servers, octet strings), as built and as decoded from the packing; used where
+        both variants pack and their octets are equal exactly where the vector says "duplicates".  Mode "hdrbits": two records
+        of every type whose class / type / TTL are the vector's two values differing in one bit.  A panic of IsDuplicate is
+        a finding of its own (isduplicate/panics:...); the call in the other order is still judged.
 TV      harness `dup record`: random pairs of records obtained from the wire (Unpack of the real Pack, one RDATA octet
         outside the names overwritten in a quarter of them) described by their uncompressed owner/RDATA octets and the
         spans of their embedded names, with IsDuplicate in both orders; random lists with TTLs up to 2^32-1 and the real
         Dedup result; `dup sweep`: every RDATA octet of every type overwritten with 0 / 0xff / bit 0 flipped, each decoded
-        variant against a second decoding of the same octets and against the original  ->  Trace_Dup.
+        variant against a second decoding of the same octets and against the original; every slice of every type with its
+        last / first / every element dropped and its last element twice (as built and decoded); every bit of the type and
+        class octets and bits 0/15/16/31 (thorough: all) of the TTL octets flipped in the packed record, type and class of
+        the description read from the octets  ->  Trace_Dup.  `dup record` also draws pairs whose classes differ in one bit.
 
 Seeded changes /verif/seeded/C20-{1,2,3} (all exit 1):
   C20-1 normalizedString: backslash sets esc instead of toggling   GEN dedup/count:<type> (lists with the owner shapes a\\\\B / A\\\\b ...); TV dedup/trace:<type>
@@ -44,6 +56,11 @@ Seeded changes /verif/seeded/C20-{1,2,3} (all exit 1):
   C20-12 isDuplicateName falls back to the unescaped texts           GEN isduplicate/false-positive:<type>:owner-label-sequence / :name-label-sequence:<field>
                                                                     (mode "labels": names as label sequences over a . \\); TV ...:label-boundary-vs-dot-octet:*
 
+  C20-17 generated slice comparison without the length check (APL)   GEN isduplicate/false-positive:apl:list-length:prefixes (shorter list first) and
+                                                                    isduplicate/panics:apl:list-length:prefixes (longer first) (mode "lens"); TV panics key (`dup sweep`)
+  C20-18 class compared with the top bit masked off                 GEN isduplicate/false-positive:<type>:class-top-bit (mode "hdrbits", as built and from the wire);
+                                                                    TV isduplicate/false-positive:<type>:one-header-bit:class:top-bit (sweep), :class-top-bit (record)
+
 Mutants (checks/mutants/C20), all exit 1 (stage = where the evidence shows the discrepancy):
   mx-preference-omitted.diff     one field dropped from a generated isDuplicate   GEN isduplicate/false-positive:mx:value:preference ; TV (pairs, sweep one-octet)
   soa-mbox-case-sensitive.diff   a name compared with !=                          GEN isduplicate/false-negative:soa:name-case:mbox ; TV not within 6 000 random events
@@ -51,6 +68,8 @@ Mutants (checks/mutants/C20), all exit 1 (stage = where the evidence shows the d
   apl-negation-ignored.diff      APLPrefix.equals forgets Negation                GEN isduplicate/false-positive:apl:value:prefixes-negation ; TV
   dedup-keeps-last.diff          Dedup keeps the last of a group                  GEN dedup/order-or-identity:<type> ; TV dedup/trace:<type>
   dedup-fastpath-leaves-map.diff reverse of /repo f97e58b (all-distinct call leaves m dirty)  GEN dedup/reused-map:after-an-all-distinct-call:* ; TV ...:trace
+  txt-common-prefix-compared.diff TXT.isDuplicate compares the common prefix of the two lists   GEN isduplicate/false-positive:txt:list-length:txt ; TV ...:list-length:drop-last:*
+  class-any-matches-all.diff     class ANY in either header matches every class     GEN isduplicate/false-positive:<type>:class-bit (255 vs 254, 127, ...) ; TV record class-bit
   dedup-ttl-not-lowered.diff     survivor keeps its own TTL                       GEN dedup/ttl:<type> ; TV dedup/trace:<type>
 """
 import os, json
@@ -61,7 +80,8 @@ def mc_jobs(ctx):
     w = 2 if ctx.quick else 4
     return [lambda: ctx.tlc("MC_Dup", workers=w, xmx="3g", timeout=1500, consts={"Mode": '"pairs"', "MaxList": 0}),
             lambda: ctx.tlc("MC_Dup", workers=w, xmx="3g", timeout=1500, consts={"Mode": '"triples"', "MaxList": 0}),
-            lambda: ctx.tlc("MC_Dup", workers=w, xmx="3g", timeout=1500, consts={"Mode": '"lists"', "MaxList": 3 if ctx.quick else 5})]
+            lambda: ctx.tlc("MC_Dup", workers=w, xmx="3g", timeout=1500, consts={"Mode": '"lists"', "MaxList": 3 if ctx.quick else 5}),
+            lambda: ctx.tlc("MC_Dup", workers=1, xmx="2g", timeout=1500, consts={"Mode": '"ext"', "MaxList": 0})]
 
 
 def gen(ctx, nlist):
@@ -75,7 +95,8 @@ def gen(ctx, nlist):
             raise vp.Infra("Gen_Dup %s exported nothing" % mode)
         paths.append(p)
     vp.parallel(mc_jobs(ctx) + [lambda: g("pairs", 0), lambda: g("triples", 0), lambda: g("lists", nlist), lambda: g("octets", 0),
-                                lambda: g("seqs", 2 if ctx.quick else 3), lambda: g("labels", 0)], maxpar=9)
+                                lambda: g("seqs", 2 if ctx.quick else 3), lambda: g("labels", 0),
+                                lambda: g("lens", 0), lambda: g("hdrbits", 0)], maxpar=9)
     allp = os.path.join(ctx.out, "vectors-all.ndjson")
     n = 0
     with open(allp, "w") as f:
@@ -152,11 +173,12 @@ def run(ctx):
     ctx.assumptions += [
         "embedded names of a record = the struct fields tagged dns:\"domain-name\" / \"cdomain-name\" (and the gateway host of IPSECKEY/AMTRELAY when the gateway type says so); their position in the RDATA is found by packing the record with the field replaced by the root",
         "a field is a field of the record's value only if changing it changes the packed octets (GatewayHost of an address-gateway IPSECKEY, address bits beyond an APL/ECS prefix, AMTRELAY gateways under the D bit are not)",
+        "records as built (not decoded) are judged by the octets they pack to, like the pairs of mode \"pairs\"; two as-built spellings of the SAME octets are not judged (AMBIG); a list variant the library refuses to pack (a 3-octet address, a repeated SVCB key) is outside the universe",
         "Dedup: the RDATA text is the record's String() after the fourth tab; OPT is excluded from Dedup lists (its TTL field is not a TTL)",
         "records differing only in the escaping of a name (\\065 for A) are outside the universe: Unpack and the zone parser produce one canonical spelling",
     ]
     return ctx.finish(rule="vectors: 144^2 ordered pairs + 36^3 triples of abstract records x (record type, field) instantiations, all lists of <= N "
-                      "of 6 symbols x record type; evaluations = IsDuplicate/Dedup calls compared; distinct_nontrivial = distinct (type, relation, "
+                      "of 6 symbols x record type, 145 pairs of list variants x every slice of every type, 336 single-bit header differences x record type; evaluations = IsDuplicate/Dedup calls compared; distinct_nontrivial = distinct (type, relation, "
                       "outcome); events: random from-the-wire pairs and lists, exhaustive single-octet RDATA overwrites, judged by TLC against Dup.tla")
 
 
@@ -164,7 +186,10 @@ def replay(ctx, path):
     binp = ctx.build("dup")
     rp = json.load(open(path))
     case = rp["case"]
-    if "record" in case:
+    if "sweep" in case:      # a panic observed by `dup sweep` (no event: a panicking call has no answer)
+        s = ctx.run_json(binp, ["sweep", os.path.join(ctx.out, "trace.ndjson"), "0", "1"])
+        bad = any(m["key"] == rp["key"] for m in s["mismatches"])
+    elif "record" in case:
         out = os.path.join(ctx.out, "trace.ndjson")
         a = case["record"]["args"]
         ctx.run_json(binp, [a[0], out] + a[1:], env={"VERIF_SEED": str(case["record"]["seed"])})
